@@ -5,9 +5,12 @@ import SpoxModel.Lemmas.BuildAlgDiscover
 import SpoxModel.Lemmas.BuildAlgLeak
 import SpoxModel.Lemmas.BuildAlgScope
 import SpoxModel.Lemmas.BuildAlgOrder
+import SpoxModel.Lemmas.BuildAlgPlaced
 import SpoxModel.Lemmas.BridgeWalk
 import SpoxModel.Lemmas.BridgeFacts
 import SpoxModel.Props.C01
+import SpoxModel.Model.BuildAlgCover
+import SpoxModel.Generated.BuildAlgFacts
 /-! Property theorems for C04 (only property-level statements and non-vacuity examples live here). -/
 namespace C04
 open BuildAlg
@@ -311,6 +314,63 @@ theorem scope_defined (p : Prog) (hwf : WF p) (b : Built) (tr : List Ev)
       rw [hnil] at this; cases this
     · exact ⟨d, T⟩
 
+
+/-! ### position in the built model = scope (`placed` reads the nested emission like the ModelProto is read) -/
+
+theorem build_compile (p : Prog) (b : Built) (tr : List Ev) (h : build p = .ok (b, tr)) :
+    ∃ cs, compileG p b (p.graphs.length + 1) 0 ⟨[], []⟩ = .ok cs ∧ tr = cs.trace.reverse := by
+  unfold build at h
+  split at h
+  · cases h
+  · simp only at h
+    split at h
+    · cases h
+    · split at h
+      · cases h
+      · rename_i cs hcs
+        cases h
+        exact ⟨cs, hcs, rfl⟩
+
+/-- **placed_in_scope**: in the nested emission of a successful build every vertex sits in the graph
+    `scope_of` assigns to it (the innermost graph open when it is emitted is its scope). -/
+theorem placed_in_scope (p : Prog) (b : Built) (tr : List Ev) (h : build p = .ok (b, tr))
+    (v : V) (g : Nat) (hp : (v, g) ∈ placed tr []) : b.scopeOf.get v = some g := by
+  obtain ⟨cs, hcs, rfl⟩ := build_compile p b tr h
+  obtain ⟨new, ht, hok⟩ := relOK_compileG p b _ 0 _ cs hcs
+  simp only [List.append_nil] at ht
+  obtain ⟨pl, e, q⟩ := hok [] []
+  rw [ht] at hp
+  simp only [List.append_nil, placed] at e
+  rw [e] at hp
+  exact q (v, g) hp
+
+/-- **emitted_in_least_enclosing** (the property statement about positions): every operator
+    application of the built model sits in exactly one graph, and that graph is the innermost one
+    enclosing all its uses: the lowest common ancestor, in the final scope tree, of all graphs that
+    read it through input edges — it encloses each of them and every graph enclosing all of them
+    encloses it. -/
+theorem emitted_in_least_enclosing (p : Prog) (hwf : WF p) (b : Built) (tr : List Ev)
+    (h : build p = .ok (b, tr)) (v : V) (hv : v ∈ emitted tr) :
+    ∃ g, (v, g) ∈ placed tr [] ∧ (∀ g', (v, g') ∈ placed tr [] → g' = g) ∧
+      LowestP (parent b.owner b.scopeOf)
+        (fun G => G ∈ b.graphTopo ∧ Reach p.adjIn (.src G) v) g := by
+  rw [← placed_fst tr []] at hv
+  obtain ⟨⟨v', g⟩, hm, hv'⟩ := List.mem_map.mp hv
+  simp only at hv'
+  subst hv'
+  have hs := placed_in_scope p b tr h v' g hm
+  refine ⟨g, hm, ?_, least_enclosing p hwf b tr h v' g hs⟩
+  intro g' hm'
+  have hs' := placed_in_scope p b tr h v' g' hm'
+  rw [hs] at hs'
+  cases hs'; rfl
+
+/-- … and exactly once there (`emitted_once` + `placed_fst`): the list of positions has one entry per
+    emitted vertex. -/
+theorem placed_once (p : Prog) (hwf : WF p) (b : Built) (tr : List Ev)
+    (h : build p = .ok (b, tr)) : ((placed tr []).map Prod.fst).Nodup := by
+  rw [placed_fst]; exact emitted_nodup p hwf b tr h
+
 /-! ### the bridge to the shared program model (C01): the built emission is accepted by `validG` -/
 
 /-- **build_valid_of_facts**: from the scope facts `BridgeFacts` (all of which are consequences of the
@@ -448,6 +508,11 @@ example : ∃ b tr, build exNested = .ok (b, tr) ∧ b.scopeOf.get (.node 2) = s
     parent b.owner b.scopeOf 4 = 0 := by
   refine ⟨_, _, rfl, ?_, ?_, ?_, ?_⟩ <;> decide
 
+/-- `emitted_in_least_enclosing` on the probe: `e` (2) is placed in main and nowhere else -/
+example : ∃ b tr, build exNested = .ok (b, tr) ∧ V.node 2 ∈ emitted tr ∧
+    (placed tr []).filter (fun e => e.1 == V.node 2) = [(V.node 2, 0)] := by
+  refine ⟨_, _, rfl, ?_, ?_⟩ <;> decide
+
 /-- a Loop body argument (4) leaked to the main graph: 7 = Add(Loop, arg 4) -/
 def exOuterLeak : Prog :=
   { nodes := [⟨true, [], []⟩, ⟨true, [], []⟩, ⟨true, [], []⟩, ⟨true, [], []⟩, ⟨true, [], []⟩,
@@ -481,5 +546,29 @@ example : ∃ b tr, build exSiblingLeak = .ok (b, tr) ∧ structOk exSiblingLeak
    inductive) is too expensive for a `decide`/`rfl` example; instead the native driver evaluates
    `validG (toProg p) (toEGraph (build p))` on every generated case of every run (about 6 000 built
    programs per quick run, all accepted; facet `bridge_valid` of the C04 correspondence). -/
+
+
+/-! ### tie G: the inventory of `_build.py`, regenerated from the source on every run, is what the model covers -/
+
+/-- every function of `_build.py` has a model counterpart (`BuildAlgCover.methods` names it) -/
+theorem generated_methods_covered :
+    Generated.BuildAlgFacts.methods = BuildAlgCover.methods.map (·.1) := by decide
+
+/-- no module-level state in `_build.py` (a module-level cache would be a new name) -/
+theorem generated_module_names_covered :
+    Generated.BuildAlgFacts.moduleNames = BuildAlgCover.moduleNames := by decide
+
+/-- class-level attributes: the annotated Builder / ScopeTree / BuildResult fields, nothing assigned -/
+theorem generated_class_attrs_covered :
+    Generated.BuildAlgFacts.classAttrs = BuildAlgCover.classAttrs := by decide
+
+/-- every write site of Builder state is one the model has (per method: attribute and how) -/
+theorem generated_writes_covered :
+    Generated.BuildAlgFacts.writes = BuildAlgCover.writes.map (fun e => (e.1, e.2.1, e.2.2.1)) := by
+  decide
+
+/-- the call targets of every function are the ones the model follows -/
+theorem generated_calls_covered :
+    Generated.BuildAlgFacts.calls = BuildAlgCover.calls := by decide
 
 end C04
